@@ -144,7 +144,7 @@ pub fn spec(id: &str) -> Option<PropSpec> {
         "C13" => s("C13", 13, 25000, 400000, "exploration", &["observable state = per-table schema + row multiset, catalog listings and index-driven reads on every index; the snapshot before BEGIN is compared with the one after ROLLBACK", "transactions are not nested; savepoints are exercised under C14"], ""),
         "C14" => s("C14", 14, 40000, 600000, "exploration", &["reference model = stack of (savepoint name, table contents read from the SUT when the savepoint was created)", "savepoint names are unique among live savepoints; a destroyed name may be reused", "histories bounded by the swarm step count (<= 48)"], ""),
         "C15" => s("C15", 15, 40000, 500000, "exploration", &["'rebuild from scratch' for a user index = DROP INDEX + the same CREATE INDEX on a clone of the database", "row positions inside one key compared as sets"], ""),
-        "C24" => s("C24", 24, 25000, 500000, "exploration", &["decided in its stateful reading only: statements reachable by the workload generator against states reached by histories; one statement in four is a hostile statement (extreme integer arguments, multi-byte strings at slicing positions, narrowing casts, division by zero, malformed temporal literals, missing objects, wrong arity)", "a read-only hostile statement runs on a copy of the database in a watchdog thread; not returning within 20 s is a violation (c24.hang)", "harness profile has overflow checks on, so unchecked integer arithmetic panics instead of wrapping"], ""),
+        "C24" => s("C24", 24, 25000, 500000, "exploration", &["decided in its stateful reading only: statements reachable by the workload generator against states reached by histories; one statement in four is a hostile statement (extreme integer arguments, multi-byte strings at slicing positions, narrowing casts, division by zero, malformed temporal literals, missing objects, wrong arity)", "a read-only hostile statement runs on a copy of the database in a watchdog thread; not returning within 120 s is a violation (c24.hang)", "harness profile has overflow checks on, so unchecked integer arithmetic panics instead of wrapping"], ""),
         _ => return None,
     })
 }
